@@ -233,3 +233,81 @@ func H_C06_loose(first, _ int) {
 	check(vsame(normHTML(got), normHTML(want)), "C06.loose-tight")
 	vdigest(got)
 }
+
+// H_C06_loose_nested(kind, _): looseness must not leak between nesting levels. The
+// document is a two-item outer list whose first item holds a paragraph and a nested
+// one-item list; the nested item holds a paragraph and a second block of the given
+// kind (0 ATX heading, 1 thematic break, 2 empty fenced code, 3 fenced code with a
+// line, 4 paragraph, 5 setext heading). The solver chooses whether a blank line
+// separates the nested item's two blocks and whether one separates the outer items:
+// the nested list is loose exactly in the first case, the outer list exactly in the
+// second (CommonMark 0.30 §5.3: "constituent list items are separated by blank lines,
+// or any of its constituent list items directly contain two block-level elements with
+// a blank line between them").
+func H_C06_loose_nested(kind, _ int) {
+	innerBlank := nondetBool()
+	sep := nondetBool()
+	w := nondetByte()
+	assume(isL(w))
+	if kind >= 4 {
+		assume(innerBlank) // without the blank line the text would continue the paragraph
+	}
+	var doc, second []byte
+	doc = append(doc, "- a\n  - b\n"...)
+	if innerBlank {
+		doc = append(doc, '\n')
+	}
+	switch kind {
+	case 0:
+		doc = append(doc, "    # c\n"...)
+		second = []byte("<h1>c</h1>")
+	case 1:
+		doc = append(doc, "    ***\n"...)
+		second = []byte("<hr>")
+	case 2:
+		doc = append(doc, "    ```\n    ```\n"...)
+		second = []byte("<pre><code></code></pre>")
+	case 3:
+		doc = append(doc, "    ```\n    c\n    ```\n"...)
+		second = []byte("<pre><code>c\n</code></pre>")
+	case 4:
+		doc = append(doc, "    c\n"...)
+		second = []byte("<p>c</p>")
+	default:
+		doc = append(doc, "    c\n    ===\n"...)
+		second = []byte("<h1>c</h1>")
+	}
+	if sep {
+		doc = append(doc, '\n')
+	}
+	doc = append(doc, "- "...)
+	doc = append(doc, w, '\n')
+	para := func(dst []byte, loose bool, text ...byte) []byte {
+		if loose {
+			dst = append(dst, "<p>"...)
+		}
+		dst = append(dst, text...)
+		if loose {
+			dst = append(dst, "</p>"...)
+		}
+		return dst
+	}
+	var want []byte
+	want = append(want, "<ul><li>"...)
+	want = para(want, sep, 'a')
+	want = append(want, "<ul><li>"...)
+	want = para(want, innerBlank, 'b')
+	want = append(want, second...)
+	want = append(want, "</li></ul></li><li>"...)
+	want = para(want, sep, w)
+	want = append(want, "</li></ul>"...)
+	blocks, refs := Parse(cloneBytes(doc))
+	got := renderWith(&HTMLRenderer{ReferenceMap: refs}, blocks)
+	if !vsame(normHTML(got), normHTML(want)) {
+		vnote("doc=" + string(doc))
+		vnote("got=" + string(normHTML(got)))
+		vnote("want=" + string(normHTML(want)))
+	}
+	check(vsame(normHTML(got), normHTML(want)), "C06.loose-nested")
+	vdigest(got)
+}
